@@ -20,8 +20,10 @@ def powers(x, n):
     return pw
 
 
-def check_poly(e, ty, ncoef, label, funcs):
-    """Obligations for one polynomial form with ncoef coefficients (degree ncoef-1)."""
+def check_poly(e, ty, ncoef, label, funcs, lanes_up_to=None):
+    """Obligations for one polynomial form with ncoef coefficients (degree ncoef-1).
+    lanes_up_to: only the rounding lanes below this index are bounded (long PolyN: the high lanes' products of ~2n rounding factors
+    do not finish within the cap; the exact identity and linearity are still decided)."""
     n = ncoef - 1
     names = ["c%d" % i for i in range(ncoef)]
     cs = [z3.Real(nm) for nm in names]
@@ -71,7 +73,7 @@ def check_poly(e, ty, ncoef, label, funcs):
             [], R == sum(lanes, z3.RealVal(0)), dom_name="real-delta", functions=funcs,
             witness_terms=wt, role="eval-linearity:" + label)
     K = 4 * (n + 2)
-    for i in range(ncoef):
+    for i in range(ncoef if lanes_up_to is None else min(ncoef, lanes_up_to)):
         Fi = z3.simplify(z3.substitute(lanes[i], (cs[i], z3.RealVal(1)), (x, z3.RealVal(1))))
         e.prove("%s:lane%d-shape" % (label, i),
                 "lane %d of %s: P_d(c_%d e_%d, x) == c_%d * x^%d * F_%d(d)" % (i, label, i, i, i, i, i),
@@ -210,8 +212,11 @@ def run(rep, tier):
                        "identity with sum c_i x^i; linearity + per-monomial rounding-factor bound 4(n+2)u in the standard model "
                        "of IEEE arithmetic with tightness twins; bit-precise composition claim for Log<T>.")
     lens = list(range(0, 13)) if tier == "thorough" else [0, 1, 2, 3, 5, 8, 12]
+    long_lens = [16, 17, 33, 65] if tier == "quick" else [16, 17, 24, 32, 33, 64, 65, 129, 257]
     rep.bounds = {"fixed_degree": "Poly0..Poly8: no input bound (all reals / all binary64)",
-                  "PolyN_lengths": lens, "outside": "PolyN longer than 12; overflow/underflow of partial terms; accuracy of ln"}
+                  "PolyN_lengths": lens, "PolyN_lengths_identity_only": long_lens,
+                  "outside": "PolyN longer than the listed lengths; rounding lanes of x^4 and above for PolyN longer than 12 (exact identity, "
+                             "linearity and the four lowest lanes only); overflow/underflow of partial terms; accuracy of ln"}
     specs = [("eval", "P%d" % k, k + 2, ()) for k in range(9)]
     specs += [("eval", "PN%d" % n, n + 1, ()) for n in (0, 1, 4, 12)]
     specs += [("eval", "LP%d" % k, k + 2, (k + 1,)) for k in range(9)]
@@ -221,6 +226,8 @@ def run(rep, tier):
             check_poly(e, "P%d" % k, k + 1, "Poly%d" % k, ["<Poly%d as Evaluate>::evaluate" % k])
         for n in lens:
             check_poly(e, "PN%d" % n, n, "PolyN[len=%d]" % n, ["<PolyN as Evaluate>::evaluate", "PolyN::evaluate::{closure#0}"])
+        for n in long_lens:
+            check_poly(e, "PN%d" % n, n, "PolyN[len=%d]" % n, ["<PolyN as Evaluate>::evaluate", "PolyN::evaluate::{closure#0}"], lanes_up_to=4)
         for k in range(9):
             check_log(e, k)
     e.finish()
